@@ -3,6 +3,8 @@
 From ZV.Common Require Import Base Run.
 From Coq Require Import Sorting.Sorted Sorting.Permutation.
 From ZV.C11 Require Import Model ProofsSpec ProofsScatter ProofsLsd ProofsMerge ProofsSet ProofsInsertion ProofsExtSort ProofsExamples.
+From ZV.C11 Require Import ModelMsd ModelAdv ModelPar ModelSkip ModelMultipass ModelFunnel ModelKv ModelCoAware ModelCases.
+From ZV.C11 Require Import ProofsMsd ProofsMsdDepth ProofsScatterK ProofsAdv ProofsPar ProofsSkip ProofsSetVar ProofsMultipass ProofsKv ProofsCoAware ProofsExamplesX.
 Open Scope N_scope.
 
 (* the checker used for the S-only cells decides exactly "sorted permutation of the input" *)
@@ -145,3 +147,362 @@ Theorem external_sort_zero_buffer_refuted :
 Proof. exact external_sort_zero_buffer_refuted_proof. Qed.
 Check external_sort_zero_buffer_refuted : exists input, rs_sort 0 input <> isort input.
 Print Assumptions external_sort_zero_buffer_refuted.
+
+(* ================================================================== *)
+(* extension: more of the code inside the model                        *)
+(* ================================================================== *)
+
+(* AdvancedRadixSort::msd_radix_sort on RadixString as coded (257 buckets incl. the end-of-string bucket,
+   recursion on depth, insertion-sort cut-off, depth > 64 cut-off): sorted in lexicographic byte order, for every threshold *)
+Theorem msd_sorts_strings :
+  forall threshold data, Forall str_ok data ->
+    StronglySorted lex_le (msd_str threshold data) /\ Permutation data (msd_str threshold data).
+Proof. exact msd_str_sorts. Qed.
+Check msd_sorts_strings :
+  forall threshold data, Forall str_ok data ->
+    StronglySorted lex_le (msd_str threshold data) /\ Permutation data (msd_str threshold data).
+Print Assumptions msd_sorts_strings.
+
+(* the same function on fixed-width integers (w = 4: u32, w = 8: u64; get_byte = big-endian bytes) *)
+Theorem msd_sorts_ints :
+  forall w threshold data, Forall (fun x => x < 256 ^ N.of_nat w) data ->
+    Sorted N.le (msd_int w threshold data) /\ Permutation data (msd_int w threshold data).
+Proof. exact msd_int_sorts. Qed.
+Check msd_sorts_ints :
+  forall w threshold data, Forall (fun x => x < 256 ^ N.of_nat w) data ->
+    Sorted N.le (msd_int w threshold data) /\ Permutation data (msd_int w threshold data).
+Print Assumptions msd_sorts_ints.
+
+(* RadixSort::sort_bytes (MSD without any cut-off; fuel = longest string + 1) *)
+Theorem sort_bytes_msd_sorts :
+  forall data, Forall str_ok data ->
+    StronglySorted lex_le (sort_bytes data) /\ Permutation data (sort_bytes data).
+Proof. exact sort_bytes_sorts. Qed.
+Check sort_bytes_msd_sorts :
+  forall data, Forall str_ok data ->
+    StronglySorted lex_le (sort_bytes data) /\ Permutation data (sort_bytes data).
+Print Assumptions sort_bytes_msd_sorts.
+
+(* the lexicographically sorted permutation of a list of byte strings is unique *)
+Theorem lex_sorted_permutation_unique :
+  forall a b : list (list N), StronglySorted lex_le a -> StronglySorted lex_le b -> Permutation a b -> a = b.
+Proof. exact lex_sorted_perm_unique. Qed.
+Check lex_sorted_permutation_unique :
+  forall a b : list (list N), StronglySorted lex_le a -> StronglySorted lex_le b -> Permutation a b -> a = b.
+Print Assumptions lex_sorted_permutation_unique.
+
+(* returning early once depth >= data[0].max_bytes() (not in the tree) is wrong for strings *)
+Theorem msd_early_return_refuted :
+  exists threshold data, Forall str_ok data /\ msd_str_early threshold data <> msd_str threshold data.
+Proof. exact msd_early_return_refuted_proof. Qed.
+Check msd_early_return_refuted :
+  exists threshold data, Forall str_ok data /\ msd_str_early threshold data <> msd_str threshold data.
+Print Assumptions msd_early_return_refuted.
+
+(* the counting pass of AdvancedRadixSort for any element type (elements moved, digit taken from extract_key) *)
+Theorem keyed_counting_pass_is_stable_bucketing :
+  forall (T : Type) (key : T -> N) r shift (data : list T),
+    lsd_pass_k T key r shift data = lsd_pass_spec_k T key r shift data.
+Proof. exact lsd_pass_eq_spec_k. Qed.
+Check keyed_counting_pass_is_stable_bucketing :
+  forall (T : Type) (key : T -> N) r shift (data : list T),
+    lsd_pass_k T key r shift data = lsd_pass_spec_k T key r shift data.
+Print Assumptions keyed_counting_pass_is_stable_bucketing.
+
+(* AdvancedRadixSort<u32/u64>::sort: whichever strategy is forced or selected adaptively (insertion / sort_unstable /
+   LSD sequential or chunked-parallel / MSD), every radix width, threshold and thread count *)
+Theorem adv_sort_any_strategy_ints :
+  forall (w : nat) (std_sort : list N -> list N) c data,
+    (forall l, Sorted N.le (std_sort l) /\ Permutation l (std_sort l)) ->
+    0 < c_radix c -> (0 < c_threads c)%nat -> Forall (fun x => x < 256 ^ N.of_nat w) data ->
+    Sorted N.le (adv_sort_int w std_sort c data) /\ Permutation data (adv_sort_int w std_sort c data).
+Proof. exact adv_sort_int_sorts. Qed.
+Check adv_sort_any_strategy_ints :
+  forall (w : nat) (std_sort : list N -> list N) c data,
+    (forall l, Sorted N.le (std_sort l) /\ Permutation l (std_sort l)) ->
+    0 < c_radix c -> (0 < c_threads c)%nat -> Forall (fun x => x < 256 ^ N.of_nat w) data ->
+    Sorted N.le (adv_sort_int w std_sort c data) /\ Permutation data (adv_sort_int w std_sort c data).
+Print Assumptions adv_sort_any_strategy_ints.
+
+(* AdvancedRadixSort<RadixString>::sort: the same, provided that when the sequential LSD path is the one taken no two
+   different strings share their 8-byte key (finding string_lsd_key_collision) *)
+Theorem adv_sort_any_strategy_strings :
+  forall (std_sort : list (list N) -> list (list N)) c data,
+    (forall l, StronglySorted lex_le (std_sort l) /\ Permutation l (std_sort l)) ->
+    0 < c_radix c -> (0 < c_threads c)%nat -> Forall str_ok data ->
+    (lsd_sequential_selected (list N) str_key c data = true ->
+       forall x y, In x data -> In y data -> str_key x = str_key y -> x = y) ->
+    StronglySorted lex_le (adv_sort_str std_sort c data) /\ Permutation data (adv_sort_str std_sort c data).
+Proof. exact adv_sort_str_sorts. Qed.
+Check adv_sort_any_strategy_strings :
+  forall (std_sort : list (list N) -> list (list N)) c data,
+    (forall l, StronglySorted lex_le (std_sort l) /\ Permutation l (std_sort l)) ->
+    0 < c_radix c -> (0 < c_threads c)%nat -> Forall str_ok data ->
+    (lsd_sequential_selected (list N) str_key c data = true ->
+       forall x y, In x data -> In y data -> str_key x = str_key y -> x = y) ->
+    StronglySorted lex_le (adv_sort_str std_sort c data) /\ Permutation data (adv_sort_str std_sort c data).
+Print Assumptions adv_sort_any_strategy_strings.
+
+(* without that hypothesis: forced LSD on [[0]; [0;0;0]; []; [0;0]] (witness of the finding) *)
+Theorem adv_sort_str_lsd_collision_refuted :
+  exists c data, Forall str_ok data /\ 0 < c_radix c /\ (0 < c_threads c)%nat /\
+    adv_sort_str isort_str c data <> isort_str data.
+Proof. exact adv_sort_str_lsd_collision_refuted_proof. Qed.
+Check adv_sort_str_lsd_collision_refuted :
+  exists c data, Forall str_ok data /\ 0 < c_radix c /\ (0 < c_threads c)%nat /\
+    adv_sort_str isort_str c data <> isort_str data.
+Print Assumptions adv_sort_str_lsd_collision_refuted.
+
+(* MultiWayMerge::merge_heap *)
+Theorem heap_merge_merges :
+  forall ways, Forall (Sorted N.le) ways ->
+    Sorted N.le (heap_merge ways) /\ Permutation (concat ways) (heap_merge ways).
+Proof. exact heap_merge_merges_proof. Qed.
+Check heap_merge_merges :
+  forall ways, Forall (Sorted N.le) ways ->
+    Sorted N.le (heap_merge ways) /\ Permutation (concat ways) (heap_merge ways).
+Print Assumptions heap_merge_merges.
+
+(* MultiWayMerge::merge: whichever of single source / hierarchical / tournament / heap the configuration selects *)
+Theorem mwm_merge_merges :
+  forall tt maxw ways, Forall (Sorted N.le) ways ->
+    Sorted N.le (mwm_merge tt maxw ways) /\ Permutation (concat ways) (mwm_merge tt maxw ways).
+Proof. exact mwm_merge_merges_proof. Qed.
+Check mwm_merge_merges :
+  forall tt maxw ways, Forall (Sorted N.le) ways ->
+    Sorted N.le (mwm_merge tt maxw ways) /\ Permutation (concat ways) (mwm_merge tt maxw ways).
+Print Assumptions mwm_merge_merges.
+
+(* RadixSort::counting_sort_u32 *)
+Theorem counting_sort_sorts :
+  forall data, Sorted N.le (counting_sort data) /\ Permutation data (counting_sort data).
+Proof. exact counting_sort_sorts_proof. Qed.
+Check counting_sort_sorts :
+  forall data, Sorted N.le (counting_sort data) /\ Permutation data (counting_sort data).
+Print Assumptions counting_sort_sorts.
+
+(* the slices handed to the per-chunk sort and the slices handed to the merge are the same list *)
+Theorem chunk_boundaries_agree :
+  forall (f : list N -> list N) cs l, (0 < cs)%nat -> (forall l, length (f l) = length l) ->
+    chunks cs (concat (map f (chunks cs l))) = map f (chunks cs l).
+Proof. exact chunks_rechunk. Qed.
+Check chunk_boundaries_agree :
+  forall (f : list N -> list N) cs l, (0 < cs)%nat -> (forall l, length (f l) = length l) ->
+    chunks cs (concat (map f (chunks cs l))) = map f (chunks cs l).
+Print Assumptions chunk_boundaries_agree.
+
+(* RadixSort::sort_u32 incl. the chunk + merge path: every radix width, counting threshold, parallel threshold, thread count *)
+Theorem parallel_sort_sorts_u32 :
+  forall r cth par pth threads data,
+    0 < r -> (0 < threads)%nat -> Forall (fun x => x < 2 ^ 32) data ->
+    Sorted N.le (sort_u32 r cth par pth threads data) /\ Permutation data (sort_u32 r cth par pth threads data).
+Proof. exact parallel_sort_u32_sorts_proof. Qed.
+Check parallel_sort_sorts_u32 :
+  forall r cth par pth threads data,
+    0 < r -> (0 < threads)%nat -> Forall (fun x => x < 2 ^ 32) data ->
+    Sorted N.le (sort_u32 r cth par pth threads data) /\ Permutation data (sort_u32 r cth par pth threads data).
+Print Assumptions parallel_sort_sorts_u32.
+
+(* RadixSort::sort_u64 likewise *)
+Theorem parallel_sort_sorts_u64 :
+  forall r par pth threads data,
+    0 < r -> (0 < threads)%nat -> Forall (fun x => x < 2 ^ 64) data ->
+    Sorted N.le (sort_u64 r par pth threads data) /\ Permutation data (sort_u64 r par pth threads data).
+Proof. exact parallel_sort_u64_sorts_proof. Qed.
+Check parallel_sort_sorts_u64 :
+  forall r par pth threads data,
+    0 < r -> (0 < threads)%nat -> Forall (fun x => x < 2 ^ 64) data ->
+    Sorted N.le (sort_u64 r par pth threads data) /\ Permutation data (sort_u64 r par pth threads data).
+Print Assumptions parallel_sort_sorts_u64.
+
+(* sorting and merging on different boundaries (a chunk size clamped on one side only) does not sort *)
+Theorem par_chunk_mismatch_refuted :
+  exists sort_cs merge_cs data, (0 < sort_cs)%nat /\ (0 < merge_cs)%nat /\
+    par_chunk_sort isort sort_cs merge_cs data <> isort data.
+Proof. exact par_chunk_mismatch_refuted_proof. Qed.
+Check par_chunk_mismatch_refuted :
+  exists sort_cs merge_cs data, (0 < sort_cs)%nat /\ (0 < merge_cs)%nat /\
+    par_chunk_sort isort sort_cs merge_cs data <> isort data.
+Print Assumptions par_chunk_mismatch_refuted.
+
+(* a counting pass as coded over a digit that is the same for every key is the identity *)
+Theorem constant_digit_pass_is_identity :
+  forall r shift data, digit_constant r shift data = true -> lsd_pass r shift data = data.
+Proof. exact constant_digit_pass_id. Qed.
+Check constant_digit_pass_is_identity :
+  forall r shift data, digit_constant r shift data = true -> lsd_pass r shift data = data.
+Print Assumptions constant_digit_pass_is_identity.
+
+(* the LSD loop that skips constant-digit passes (`continue`) *)
+Theorem lsd_skip_constant_digit_sorts :
+  forall w r data, 0 < r -> Forall (fun x => x < 2 ^ w) data ->
+    Sorted N.le (lsd_sort_skip w r data) /\ Permutation data (lsd_sort_skip w r data).
+Proof. exact lsd_skip_constant_digit_sorts_proof. Qed.
+Check lsd_skip_constant_digit_sorts :
+  forall w r data, 0 < r -> Forall (fun x => x < 2 ^ w) data ->
+    Sorted N.le (lsd_sort_skip w r data) /\ Permutation data (lsd_sort_skip w r data).
+Print Assumptions lsd_skip_constant_digit_sorts.
+
+(* leaving the loop at the first constant digit (`break`) does not sort *)
+Theorem lsd_break_refuted :
+  exists w r data, 0 < r /\ Forall (fun x => x < 2 ^ w) data /\ lsd_sort_break w r data <> isort data.
+Proof. exact lsd_break_refuted_proof. Qed.
+Check lsd_break_refuted :
+  exists w r data, 0 < r /\ Forall (fun x => x < 2 ^ w) data /\ lsd_sort_break w r data <> isort data.
+Print Assumptions lsd_break_refuted.
+
+(* multiset_1small_intersection (lower/upper-bound cursor) = multiset_intersection, duplicates on both sides *)
+Theorem ms_1small_inter_eq :
+  forall a b, Sorted N.le a -> Sorted N.le b -> ms_1small_inter (S (length a)) a b = ms_inter a b.
+Proof. exact ms_1small_inter_eq_proof. Qed.
+Check ms_1small_inter_eq :
+  forall a b, Sorted N.le a -> Sorted N.le b -> ms_1small_inter (S (length a)) a b = ms_inter a b.
+Print Assumptions ms_1small_inter_eq.
+
+(* multiset_1small_intersection2 = multiset_intersection2 *)
+Theorem ms_1small_inter2_eq :
+  forall a b, Sorted N.le a -> Sorted N.le b -> ms_1small_inter2 a b = ms_inter2 a b.
+Proof. exact ms_1small_inter2_eq_proof. Qed.
+Check ms_1small_inter2_eq :
+  forall a b, Sorted N.le a -> Sorted N.le b -> ms_1small_inter2 a b = ms_inter2 a b.
+Print Assumptions ms_1small_inter2_eq.
+
+(* multiset_fast_intersection: whichever branch the size ratio selects *)
+Theorem ms_fast_inter_eq :
+  forall th a b, Sorted N.le a -> Sorted N.le b -> ms_fast_inter th a b = ms_inter a b.
+Proof. exact ms_fast_inter_eq_proof. Qed.
+Check ms_fast_inter_eq :
+  forall th a b, Sorted N.le a -> Sorted N.le b -> ms_fast_inter th a b = ms_inter a b.
+Print Assumptions ms_fast_inter_eq.
+
+(* multiset_fast_intersection2 likewise *)
+Theorem ms_fast_inter2_eq :
+  forall th a b, Sorted N.le a -> Sorted N.le b -> ms_fast_inter2 th a b = ms_inter2 a b.
+Proof. exact ms_fast_inter2_eq_proof. Qed.
+Check ms_fast_inter2_eq :
+  forall th a b, Sorted N.le a -> Sorted N.le b -> ms_fast_inter2 th a b = ms_inter2 a b.
+Print Assumptions ms_fast_inter2_eq.
+
+(* merging the runs in groups of fan_in (trailing incomplete group included), then the partial results *)
+Theorem multipass_merge_sorts :
+  forall fan_in runs, Forall (Sorted N.le) runs ->
+    Sorted N.le (multipass_merge fan_in runs) /\ Permutation (concat runs) (multipass_merge fan_in runs).
+Proof. exact multipass_merge_sorts_proof. Qed.
+Check multipass_merge_sorts :
+  forall fan_in runs, Forall (Sorted N.le) runs ->
+    Sorted N.le (multipass_merge fan_in runs) /\ Permutation (concat runs) (multipass_merge fan_in runs).
+Print Assumptions multipass_merge_sorts.
+
+(* run generation + multi-pass merge sorts and equals the single-pass merge of the pinned code, for every fan-in *)
+Theorem external_sort_multipass_sorts :
+  forall mem fan_in input, (0 < mem)%nat ->
+    Sorted N.le (rs_sort_multipass mem fan_in input) /\ Permutation input (rs_sort_multipass mem fan_in input) /\
+    rs_sort_multipass mem fan_in input = rs_sort mem input.
+Proof. exact external_sort_multipass_sorts_proof. Qed.
+Check external_sort_multipass_sorts :
+  forall mem fan_in input, (0 < mem)%nat ->
+    Sorted N.le (rs_sort_multipass mem fan_in input) /\ Permutation input (rs_sort_multipass mem fan_in input) /\
+    rs_sort_multipass mem fan_in input = rs_sort mem input.
+Print Assumptions external_sort_multipass_sorts.
+
+(* grouping with chunks_exact drops the runs of the trailing group *)
+Theorem multipass_chunks_exact_refuted :
+  exists fan_in runs, Forall (Sorted N.le) runs /\ multipass_merge_exact fan_in runs <> multipass_merge fan_in runs.
+Proof. exact multipass_chunks_exact_refuted_proof. Qed.
+Check multipass_chunks_exact_refuted :
+  exists fan_in runs, Forall (Sorted N.le) runs /\ multipass_merge_exact fan_in runs <> multipass_merge fan_in runs.
+Print Assumptions multipass_chunks_exact_refuted.
+
+(* CacheObliviousSort::cache_oblivious_sort: funnel recursion (segments, recursive sort, k-way merge of the same segments)
+   for every small_threshold and cache geometry *)
+Theorem co_sort_sorts :
+  forall st l2 line data, Sorted N.le (co_sort st l2 line data) /\ Permutation data (co_sort st l2 line data).
+Proof. exact co_sort_sorts_proof. Qed.
+Check co_sort_sorts :
+  forall st l2 line data, Sorted N.le (co_sort st l2 line data) /\ Permutation data (co_sort st l2 line data).
+Print Assumptions co_sort_sorts.
+
+(* KeyValueRadixSort::sort_by_key (keys sorted by sort_u64, values fetched through per-key position queues): no error,
+   sorted by key, every (key, value) pair kept, pairs with equal keys in their input order *)
+Theorem kv_sort_keeps_pairs :
+  forall threads data, (0 < threads)%nat -> Forall (fun p => fst p < 2 ^ 64) data ->
+    exists out, kv_sort threads data = Some out /\
+      Sorted N.le (map fst out) /\ Permutation data out /\ forall k, with_key k out = with_key k data.
+Proof. exact kv_sort_pairs_proof. Qed.
+Check kv_sort_keeps_pairs :
+  forall threads data, (0 < threads)%nat -> Forall (fun p => fst p < 2 ^ 64) data ->
+    exists out, kv_sort threads data = Some out /\
+      Sorted N.le (map fst out) /\ Permutation data out /\ forall k, with_key k out = with_key k data.
+Print Assumptions kv_sort_keeps_pairs.
+
+(* SimdOperations::merge_multiple_sorted: binary merge tree, an odd array carried over to the next round *)
+Theorem merge_tree_merges :
+  forall ls, Forall (Sorted N.le) ls -> Sorted N.le (merge_tree ls) /\ Permutation (concat ls) (merge_tree ls).
+Proof. exact merge_tree_merges_proof. Qed.
+Check merge_tree_merges :
+  forall ls, Forall (Sorted N.le) ls -> Sorted N.le (merge_tree ls) /\ Permutation (concat ls) (merge_tree ls).
+Print Assumptions merge_tree_merges.
+
+(* Vec::external_sort_with_config: in-memory sort when the data fits the buffer, else replacement selection *)
+Theorem vec_external_sort_sorts :
+  forall (std_sort : list N -> list N) elem_size buf data,
+    (forall l, Sorted N.le (std_sort l) /\ Permutation l (std_sort l)) ->
+    Sorted N.le (vec_external_sort std_sort elem_size buf data) /\
+    Permutation data (vec_external_sort std_sort elem_size buf data).
+Proof. exact vec_external_sort_sorts_proof. Qed.
+Check vec_external_sort_sorts :
+  forall (std_sort : list N -> list N) elem_size buf data,
+    (forall l, Sorted N.le (std_sort l) /\ Permutation l (std_sort l)) ->
+    Sorted N.le (vec_external_sort std_sort elem_size buf data) /\
+    Permutation data (vec_external_sort std_sort elem_size buf data).
+Print Assumptions vec_external_sort_sorts.
+
+(* sort_bytes_msd before fix 50ae740: two equal strings of length L cost L + 1 nested calls (stack overflow at ~100 KB) *)
+Theorem sort_bytes_unfixed_depth_unbounded :
+  forall (a : N) (L : nat), a < 256 -> sort_bytes_levels false [repeat a L; repeat a L] = S L.
+Proof. exact sort_bytes_unfixed_depth_proof. Qed.
+Check sort_bytes_unfixed_depth_unbounded :
+  forall (a : N) (L : nat), a < 256 -> sort_bytes_levels false [repeat a L; repeat a L] = S L.
+Print Assumptions sort_bytes_unfixed_depth_unbounded.
+
+(* with the common-prefix skip every level splits its input: at most as many nested calls as there are strings *)
+Theorem sort_bytes_depth_bounded :
+  forall data : list (list N), data <> [] -> (sort_bytes_levels true data <= length data)%nat.
+Proof. exact sort_bytes_depth_bounded_proof. Qed.
+Check sort_bytes_depth_bounded :
+  forall data : list (list N), data <> [] -> (sort_bytes_levels true data <= length data)%nat.
+Print Assumptions sort_bytes_depth_bounded.
+
+(* the fix does not change what is computed *)
+Theorem sort_bytes_fix_keeps_result :
+  forall data, Forall str_ok data -> sort_bytes_unfixed data = sort_bytes data.
+Proof. exact sort_bytes_unfixed_eq. Qed.
+Check sort_bytes_fix_keeps_result :
+  forall data, Forall str_ok data -> sort_bytes_unfixed data = sort_bytes data.
+Print Assumptions sort_bytes_fix_keeps_result.
+
+(* cache_aware_quicksort (Lomuto partition around the last element) *)
+Theorem quicksort_sorts :
+  forall l, Sorted N.le (quicksort l) /\ Permutation l (quicksort l).
+Proof. exact quicksort_sorts. Qed.
+Check quicksort_sorts :
+  forall l, Sorted N.le (quicksort l) /\ Permutation l (quicksort l).
+Print Assumptions quicksort_sorts.
+
+(* cache_aware_mergesort *)
+Theorem mergesort_sorts :
+  forall l, Sorted N.le (mergesort l) /\ Permutation l (mergesort l).
+Proof. exact mergesort_sorts. Qed.
+Check mergesort_sorts :
+  forall l, Sorted N.le (mergesort l) /\ Permutation l (mergesort l).
+Print Assumptions mergesort_sorts.
+
+(* CacheObliviousSort::sort: whichever strategy the cache hierarchy, the element size and the length select *)
+Theorem co_full_sort_sorts :
+  forall st esz l1 l2 l3 line l,
+    Sorted N.le (co_full_sort st esz l1 l2 l3 line l) /\ Permutation l (co_full_sort st esz l1 l2 l3 line l).
+Proof. exact co_full_sort_sorts_proof. Qed.
+Check co_full_sort_sorts :
+  forall st esz l1 l2 l3 line l,
+    Sorted N.le (co_full_sort st esz l1 l2 l3 line l) /\ Permutation l (co_full_sort st esz l1 l2 l3 line l).
+Print Assumptions co_full_sort_sorts.
